@@ -221,6 +221,36 @@ func (r *Runner) Run(h *History) ([]Line, error) {
 				res = e
 			}
 		}
+		if op.P == "N" {
+			// the node itself owns and publishes the event (it has no mailbox: notices addressed to it go nowhere)
+			switch op.Op {
+			case "register":
+				t, err := r.Node.RegisterEvent(ev.Name, gen.EventOptions{Notify: op.Notify, Buffer: op.Buffer})
+				if err == nil {
+					tokens[op.E] = t
+				}
+				res = err
+			case "unregister":
+				res = r.Node.UnregisterEvent(ev.Name)
+			case "publish":
+				seq++
+				ln.ID = fmt.Sprintf("%s:%d", op.E, seq)
+				res = r.Node.SendEvent(ev.Name, tokens[op.E], gen.MessageOptions{}, ln.ID)
+			case "badpublish":
+				seq++
+				ln.ID = fmt.Sprintf("%s:%d", op.E, seq)
+				res = r.Node.SendEvent(ev.Name, r.Node.(gen.Core).MakeRef(), gen.MessageOptions{}, ln.ID)
+			}
+			ln.Res = resName(res)
+			quiesce()
+			observe(&ln)
+			if ln.Returned == nil {
+				ln.Returned = []string{}
+			}
+			lines = append(lines, ln)
+			r.Ops++
+			continue
+		}
 		switch op.Op {
 		case "register":
 			do(func(s *gated.Scripted) error {
